@@ -28,7 +28,8 @@ type ExtendedLegacyServer interface {
 //
 // EXPERIMENTAL: may change until v4
 func RegisterLegacyServer(s ExtendedLegacyServer, authorizeCallbackHandler http.HandlerFunc, options ...ServerOption) http.Handler {
-	options = append(options,
+	// cap the slice, so that append never writes into spare capacity of the caller's slice
+	options = append(options[:len(options):len(options)],
 		WithHTTPMiddleware(intercept(s.Provider().IssuerFromRequest)),
 		WithSetRouter(func(r chi.Router) {
 			r.HandleFunc(s.Endpoints().Authorization.Relative()+authCallbackPathSuffix, authorizeCallbackHandler)
